@@ -377,9 +377,9 @@ func (t *Tpl) writeNode(w io.Writer, node *node, ctx *Ctx) (err error) {
 			r = ctx.BufB
 			// Set var, ok to context.
 			lv, lr := byteconv.B2S(node.condOKL), byteconv.B2S(node.condOKR)
-			ins, err := GetInspector(lv, byteconv.B2S(node.condIns))
-			if err != nil {
-				return err
+			ins, ierr := GetInspector(lv, byteconv.B2S(node.condIns))
+			if ierr != nil {
+				return ierr
 			}
 			raw := ctx.bufX
 			ctx.Set(lv, raw, ins)
